@@ -61,6 +61,7 @@ M0(c) ==
     cancelled|-> FALSE,         \* the caller cancelled
     mustSignal |-> {},          \* steps with a cancel handler whose plugin was executing when their context ended
     depObs   |-> {},            \* <<step, path below deploy.tag, value>>: the deployment configuration as the run loop evaluated it
+    noOutReported |-> FALSE,    \* "no output can be produced any more" was reported (or the condition was flagged once)
     finDecl  |-> {},            \* steps that declared themselves finished and have not yet delivered their completion
     sigRecv  |-> {},            \* steps whose plugin received the cancel signal
     sigSent  |-> {},            \* steps the cancel signal was enqueued for (or whose plugin had already finished)
@@ -266,8 +267,9 @@ OnOutSend(mm, e) ==
 
 Quiet(mm) == mm.slots = {} /\ mm.execLive = {} /\ mm.plugLive = {}
 
-OnErrPush(mm, e) ==
-  LET c1 == IF e.bug THEN {<<"C08", "internal-bug-error", e.kind>>} ELSE {}
+OnErrPush(mm0, e) ==
+  LET mm == IF e.kind = "nooutputs" THEN [mm0 EXCEPT !.noOutReported = TRUE] ELSE mm0
+      c1 == IF e.bug THEN {<<"C08", "internal-bug-error", e.kind>>} ELSE {}
       c2 == IF e.kind = "nooutputs" /\ \E id \in OutputIds(WF) : mm.g.st[OutputNode(id)] # "U"
               THEN {<<"C03", "no-more-outputs-reported-while-an-output-is-still-possible", "">>} ELSE {}
       c3 == IF e.kind = "nosteps" /\ mm.slots # {}
@@ -326,7 +328,8 @@ OnXExecStart(mm, e) ==
   IN  VS([mm EXCEPT !.plugLive = @ \cup {s}], c1 \cup c2 \cup c3)
 
 OnReturn(mm, e) ==
-  LET c1 == IF mm.returned > 0 THEN {<<"C01", "returned-twice", "">>} ELSE {}
+  LET c1 == (IF mm.returned > 0 THEN {<<"C01", "returned-twice", "">>} ELSE {})
+            \cup (IF ~e.iserr /\ e.id \in {"nil", ""} THEN {<<"C01", "returned-neither-an-output-nor-an-error", "">>} ELSE {})
       c2 == IF mm.conns # {} THEN {<<"C05", "plugin-connection-still-open-at-return", "">>} ELSE {}
       c3 == IF mm.alive # {} THEN {<<"C05", "step-goroutine-alive-at-return", "">>} ELSE {}
       c4 == IF mm.execLive # {} THEN {<<"C05", "execution-goroutine-alive-at-return", "">>} ELSE {}
@@ -351,7 +354,14 @@ Dispatch(mm, e) ==
     [] e.ev = "HEnter" /\ e.h = "F" -> OnHEnterF(mm, e)
     \* when the handler that delivered a true stop condition has returned, the step has been told to stop: if it has
     \* not yet passed its start-time check it must never start
-    [] e.ev = "HExit"     -> [mm EXCEPT !.h = NoH, !.stopped = @ \cup (mm.stopPending \ mm.checked), !.stopPending = {}]
+    [] e.ev = "HExit"     ->
+         LET mm1  == [mm EXCEPT !.h = NoH, !.stopped = @ \cup (mm.stopPending \ mm.checked), !.stopPending = {}]
+             \* every declared output has become impossible in this run: the handler in which the last one did must have said
+             \* so (the run then ends promptly with that error instead of waiting for steps that no longer matter)
+             dead == OutputIds(WF) # {} /\ \A id \in OutputIds(WF) : mm.g.st[OutputNode(id)] = "U"
+         IN  IF dead /\ ~mm.noOutReported /\ mm.outSent = <<>> /\ ~mm.cancelled /\ mm.returned = 0 /\ ~mm.evalFailed
+               THEN V([mm1 EXCEPT !.noOutReported = TRUE], "C01", "every-output-impossible-but-the-run-was-not-told", "")
+               ELSE mm1
     [] e.ev = "Resolve"   -> ApplyResolve(mm, e.node, e.status)
     [] e.ev = "ResolveErr"-> V(mm, "C12", "engine-reported-resolution-error", e.err)
     [] e.ev = "Pop"       -> OnPop(mm, e)
